@@ -273,7 +273,8 @@ pub fn v2(a: &[String]) -> Value {
         amz.push_str(&format!("{n}:{}\n", vals.join(",")));
     }
     let date = "Tue, 27 Mar 2007 19:36:42 +0000";
-    let mut res = path.clone();
+    // CanonicalizedResource starts with the path of the request target AS SENT (percent-encoded form, "un-decoded")
+    let mut res = uri_encode(&path, false);
     let mut subs: Vec<&(String, String)> = q.iter().filter(|(n, _)| SUB.contains(&n.as_str())).collect();
     subs.sort();
     for (i, (n, v)) in subs.iter().enumerate() {
@@ -413,4 +414,22 @@ pub fn post_form(a: &[String]) -> Value {
     json!({"violates": !ok, "input": {"variant": variant, "policy": policy_json, "key": key, "file_bytes": file.len()},
            "expected": if must_accept { "accepted: put_object for the named access key with exactly the file's bytes" } else { "refused before the backend runs" },
            "observed": {"status": st, "backend": calls, "input": input.chars().take(500).collect::<String>(), "response": rbody.chars().take(200).collect::<String>()}, "replay_args": ["post-form", a[0]]})
+}
+
+/// sigv2-presigned <decoded path>: GET with SigV2 query authentication (AWSAccessKeyId, Expires, Signature) per the REST
+/// authentication document; the string to sign carries the path exactly as it is sent (percent-encoded form)
+pub fn v2_presigned(a: &[String]) -> Value {
+    use sha1::Sha1;
+    let path = a[0].clone();
+    let wire_path = uri_encode(&path, false);
+    let expires = (time::OffsetDateTime::now_utc().unix_timestamp() + 600).to_string();
+    let sts = format!("GET\n\n\n{expires}\n{wire_path}");
+    let mut m = <Hmac<Sha1> as KeyInit>::new_from_slice(SK.as_bytes()).unwrap();
+    m.update(sts.as_bytes());
+    let sig = base64_simd::STANDARD.encode_to_string(m.finalize().into_bytes());
+    let q = vec![("AWSAccessKeyId".to_owned(), AK.to_owned()), ("Expires".to_owned(), expires), ("Signature".to_owned(), sig)];
+    let (st, calls, body) = send("GET", &path, &wire_query(&q), vec![("host".into(), "localhost".into())]);
+    let ok = calls.len() == 1;
+    json!({"violates": !ok, "input": {"path": path, "path_as_sent": wire_path, "string_to_sign": sts}, "expected": "authenticated (one backend invocation)",
+           "observed": {"status": st, "backend_calls": calls, "body": body.chars().take(200).collect::<String>()}, "replay_args": ["sigv2-presigned", a[0]]})
 }
